@@ -268,11 +268,13 @@ impl<F: Write + Seek> MiniAllocator<F> {
         let minifat_entries_per_sector = self.directory.sector_len() / 4;
         if self.minifat_start_sector == consts::END_OF_CHAIN {
             debug_assert!(self.minifat.is_empty());
-            self.minifat_start_sector =
-                self.directory.begin_chain(SectorInit::Fat)?;
+            // Remember the new MiniFAT chain only once the header refers to
+            // it: if writing the header fails, a retry must write it again.
+            let start_sector = self.directory.begin_chain(SectorInit::Fat)?;
             let mut header = self.directory.seek_within_header(60)?;
-            header.write_le_u32(self.minifat_start_sector)?;
+            header.write_le_u32(start_sector)?;
             header.write_le_u32(1)?;
+            self.minifat_start_sector = start_sector;
         } else {
             // The in-memory MiniFAT has its trailing free entries trimmed,
             // but the MiniFAT chain never shrinks, so compare against the
